@@ -8,7 +8,9 @@
            same argument), agree = within 4 ulp; dgot in {"value", "throw"}, dclass in {"match", "mismatch", "na"}
            (derivative against a Richardson finite difference of the evaluator's own values), dgoty / dclassy likewise
            with respect to y; fnn = composition f(g(arg)) + arg of two functions, same fields
-   reject: got *)
+   reject: got
+   cond  : conditional / logical expression, printed minimally and fully parenthesised: min, full as for arith (den = 1);
+           inner = value of the conditional computed by Evaluator.tla (Holds / CondVal), wrap = "" | "2*(" | "1+(" *)
 EXTENDS Evaluator, Judge
 Check(name, b) == IF b THEN {} ELSE {name}
 Times(r, den) == IF den % r[2] = 0 THEN r[1] * (den \div r[2]) ELSE -999999
@@ -22,7 +24,10 @@ FailsArith(o) ==
 FailsFn(o) == Check("function:" \o o.f, o.got = o.expect /\ (o.got = "throw" \/ o.agree))
               \cup Check("derivative:" \o o.f, o.got = "throw" \/ o.dgot = "throw" \/ o.dclass \in {"match", "na"})
               \cup Check("derivative:" \o o.f, o.got = "throw" \/ o.dgoty = "throw" \/ o.dclassy \in {"match", "na"})
+CondExpected(o) == IF o.wrap = "2*(" THEN 2 * o.inner ELSE IF o.wrap = "1+(" THEN 1 + o.inner ELSE o.inner
+FailsCond(o) == UNION {Check("conditional:" \o k, o[k].got = "value" /\ o[k].tight /\ o[k].q = CondExpected(o)) : k \in {"min", "full"}}
 Fails(o) == IF o.kind = "arith" THEN FailsArith(o)
+            ELSE IF o.kind = "cond" THEN FailsCond(o)
             ELSE IF o.kind = "reject" THEN Check("accepts-malformed", o.got = "throw")
             ELSE IF o.kind = "silent" THEN Check("silent-different-parse", o.got = "throw" \/ (o.tight /\ o.q = o.num))
             ELSE FailsFn(o)
